@@ -15,7 +15,7 @@ use std::panic::{self, AssertUnwindSafe};
 use std::sync::atomic::{AtomicBool, AtomicU64, Ordering};
 use std::sync::atomic::AtomicU8;
 use std::sync::{Arc, Mutex, MutexGuard};
-use std::thread::{self, JoinHandle, Thread};
+use std::thread::{self, JoinHandle};
 use std::time::{Duration, Instant};
 
 // ---------------------------------------------------------------------------
@@ -181,6 +181,9 @@ pub struct Stats {
     pub futex_timeouts: u64,
     pub sleeps_simulated: u64,
     pub bb_guards_passed: u64,
+    /// Switches forced by the fairness bound, `sched_yield`s of simulated threads.
+    pub fairness_switches: u64,
+    pub spin_yields: u64,
 }
 
 impl Stats {
@@ -222,6 +225,8 @@ impl Stats {
         self.futex_timeouts += o.futex_timeouts;
         self.sleeps_simulated += o.sleeps_simulated;
         self.bb_guards_passed += o.bb_guards_passed;
+        self.fairness_switches += o.fairness_switches;
+        self.spin_yields += o.spin_yields;
     }
 }
 
@@ -253,6 +258,8 @@ pub enum YieldKind {
     Blocked,
     /// `thread::sleep` on a simulated thread: simulated time has passed; treated like a job boundary.
     Sleep,
+    /// `thread::yield_now` (a spin loop being polite): somebody else runs if anybody can.
+    SpinYield,
 }
 
 // ---------------------------------------------------------------------------
@@ -326,22 +333,48 @@ impl HeapJob {
 
 const DRIVER: usize = usize::MAX;
 
+/// How a thread of the simulation waits for the token. A futex word of its own, waited on and
+/// woken through the raw system call: not `thread::park` - the code under simulation may be in
+/// the middle of using the calling thread's std parker (channels, `thread::park` itself) when
+/// the scheduler parks it, and std's parker is not re-entrant.
 struct Parker {
-    go: AtomicBool,
-    thread: Mutex<Option<Thread>>,
+    go: std::sync::atomic::AtomicU32,
 }
 
 impl Parker {
     fn new() -> Self {
         Parker {
-            go: AtomicBool::new(false),
-            thread: Mutex::new(None),
+            go: std::sync::atomic::AtomicU32::new(0),
         }
     }
     fn release(&self) {
-        self.go.store(true, Ordering::SeqCst);
-        if let Some(t) = self.thread.lock().unwrap().as_ref() {
-            t.unpark();
+        self.go.store(1, Ordering::SeqCst);
+        unsafe {
+            crate::sys::raw6(libc::SYS_futex, &self.go as *const _ as usize, (libc::FUTEX_WAKE | libc::FUTEX_PRIVATE_FLAG) as usize, 1, 0, 0, 0);
+        }
+    }
+    /// Take the token if it is there.
+    fn try_take(&self) -> bool {
+        self.go.swap(0, Ordering::SeqCst) != 0
+    }
+    /// Sleep until released or for at most `ms` milliseconds of real time.
+    fn wait_ms(&self, ms: u64) {
+        let ts = libc::timespec {
+            tv_sec: (ms / 1000) as libc::time_t,
+            tv_nsec: ((ms % 1000) * 1_000_000) as libc::c_long,
+        };
+        unsafe {
+            let e = *libc::__errno_location();
+            crate::sys::raw6(
+                libc::SYS_futex,
+                &self.go as *const _ as usize,
+                (libc::FUTEX_WAIT | libc::FUTEX_PRIVATE_FLAG) as usize,
+                0,
+                &ts as *const _ as usize,
+                0,
+                0,
+            );
+            *libc::__errno_location() = e;
         }
     }
 }
@@ -386,6 +419,13 @@ struct Policy {
     stall_at: u64,
     stalled: bool,
     stall_done: bool,
+    /// Step at which the current stall began (a stall is bounded: the others may be spinning on
+    /// something the victim holds).
+    stall_began: u64,
+    /// Consecutive voluntary yield points at which the running thread simply went on. Bounded, so
+    /// that a spin loop waiting for another thread cannot run for ever under a schedule that
+    /// favours the spinner (any real scheduler is eventually fair).
+    run_streak: u64,
     /// Clock plan of the current root operation.
     clock_drift_ns: u64,
     clock_jump_at: u64,
@@ -432,6 +472,7 @@ pub struct Sim {
     hooks_live: AtomicBool,
     hooks_passed: AtomicU64,
     bb_passed: AtomicU64,
+    futex_wakes_at_start: u64,
 }
 
 /// The simulator's lock on its own state. While one is alive the thread counts as being inside
@@ -661,6 +702,8 @@ impl Sim {
                     stall_at: 0,
                     stalled: false,
                     stall_done: false,
+                    stall_began: 0,
+                    run_streak: 0,
                     clock_drift_ns: 0,
                     clock_jump_at: u64::MAX,
                     clock_jump_ns: 0,
@@ -682,6 +725,7 @@ impl Sim {
             hooks_live: AtomicBool::new(false),
             hooks_passed: AtomicU64::new(0),
             bb_passed: AtomicU64::new(0),
+            futex_wakes_at_start: FUTEX_WAKES.load(Ordering::Relaxed),
         });
         bbguard::set_sim_callback(Some(bb_callback));
         bbguard::set_mode(bbguard::MODE_OFF);
@@ -691,7 +735,6 @@ impl Sim {
     /// Install this simulation for the calling (driver) thread. Every rayon
     /// call made by this thread until `uninstall` is simulated.
     pub fn install(self: &Arc<Sim>) {
-        *self.driver_parker.thread.lock().unwrap() = Some(thread::current());
         CURRENT.with(|c| *c.borrow_mut() = Some((self.clone(), 0, DRIVER)));
         crate::clock::set_thread_sim_time(true);
     }
@@ -740,7 +783,7 @@ impl Sim {
         st.hook_yields += passed;
         st.yields += passed;
         st.bb_guards_passed = self.bb_passed.load(Ordering::Relaxed);
-        st.futex_wakes = FUTEX_WAKES.load(Ordering::Relaxed);
+        st.futex_wakes = FUTEX_WAKES.load(Ordering::Relaxed).saturating_sub(self.futex_wakes_at_start);
         st
     }
 
@@ -782,7 +825,6 @@ impl Sim {
                 .stack_size(32 << 20)
                 .spawn(move || worker_main(sim, pool_idx, idx, p2))
                 .expect("spawn sim worker");
-            *parker.thread.lock().unwrap() = Some(handle.thread().clone());
             g.pools[a].workers.push(Worker {
                 parker,
                 deque: VecDeque::new(),
@@ -841,10 +883,10 @@ impl Sim {
         let mut last = self.progress.load(Ordering::SeqCst);
         let mut since = Instant::now();
         loop {
-            if mp.go.swap(false, Ordering::SeqCst) {
+            if mp.try_take() {
                 break;
             }
-            thread::park_timeout(Duration::from_millis(200));
+            mp.wait_ms(200);
             if me == DRIVER {
                 let p = self.progress.load(Ordering::SeqCst);
                 if p != last {
@@ -879,6 +921,7 @@ impl Sim {
         g.stats.yields += 1;
         g.stats.scheduler_steps += 1;
         match kind {
+            YieldKind::SpinYield => g.stats.spin_yields += 1,
             YieldKind::Hook => g.stats.hook_yields += 1,
             YieldKind::Bb => g.stats.bb_yields += 1,
             YieldKind::BbRare => g.stats.bb_rare_yields += 1,
@@ -909,6 +952,10 @@ impl Sim {
             g.stats.clock_ns_added += j;
         }
         let k = g.k();
+        if g.policy.stalled && g.policy.step.saturating_sub(g.policy.stall_began) > 4000 {
+            g.policy.stalled = false;
+            g.policy.stall_done = true;
+        }
 
         if !forced {
             if kind == YieldKind::Hook && !g.cfg.preempt_hooks {
@@ -948,7 +995,7 @@ impl Sim {
                 }
                 // Every simulated thread waits on a futex. Only a thread outside the simulation
                 // could still wake one of them; give it a moment of real time.
-                if waited_ms >= 3000 {
+                if waited_ms >= 1500 {
                     on_deadlock(waiting_on_futex);
                 }
                 thread::sleep(Duration::from_millis(2));
@@ -1031,6 +1078,7 @@ impl Sim {
                             None
                         } else {
                             g.policy.stalled = true;
+                            g.policy.stall_began = g.policy.step;
                             g.stats.stalls += 1;
                             let i = g.choose(others.len() as u64) as usize;
                             Some(others[i])
@@ -1046,8 +1094,34 @@ impl Sim {
 
         let next = match next {
             Some(n) if n != me => n,
+            _ if !forced => {
+                // the running thread goes on - unless it has done so for very long while others could
+                // run (a spin loop), or asked to yield
+                g.policy.run_streak += 1;
+                if g.policy.run_streak < 1500 && kind != YieldKind::SpinYield {
+                    return;
+                }
+                let mut others = g.runnable_set();
+                others.retain(|&t| t != me && t != DRIVER);
+                if others.is_empty() {
+                    g.policy.run_streak = 0;
+                    return;
+                }
+                if kind != YieldKind::SpinYield {
+                    g.stats.fairness_switches += 1;
+                }
+                if g.cfg.sched == SchedMode::Pct {
+                    g.policy.pct_low -= 1;
+                    let low = g.policy.pct_low;
+                    let a = g.active;
+                    g.pools[a].workers[me].priority = low;
+                }
+                let i = g.choose(others.len() as u64) as usize;
+                others[i]
+            }
             _ => return,
         };
+        g.policy.run_streak = 0;
         match kind {
             YieldKind::Item => g.stats.preempt_item += 1,
             YieldKind::Hook => g.stats.preempt_hook += 1,
@@ -1361,7 +1435,7 @@ pub const EXIT_DEADLOCK: i32 = 4;
 
 fn on_deadlock(waiting: usize) -> ! {
     println!(
-        "E1-DEADLOCK every runnable thread of the simulated program waits on a futex (lock, condvar, channel); {} waiters, no wake in 3 s of real time",
+        "E1-DEADLOCK every runnable thread of the simulated program waits on a futex (lock, condvar, channel); {} waiters, no wake in 1.5 s of real time",
         waiting
     );
     use std::io::Write;
@@ -1415,10 +1489,10 @@ impl Sim {
         let _i = InternalSection::new();
         let sim_time = crate::clock::set_thread_sim_time(false);
         loop {
-            if parker.go.swap(false, Ordering::SeqCst) {
+            if parker.try_take() {
                 break;
             }
-            thread::park_timeout(Duration::from_millis(200));
+            parker.wait_ms(200);
         }
         crate::clock::set_thread_sim_time(sim_time);
         let me = current().map(|c| c.1).unwrap();
@@ -1633,6 +1707,23 @@ pub(crate) fn futex_wake_emulated(addr: usize, n: usize) -> usize {
     FUTEX_REG_LEN.store(r.len(), Ordering::SeqCst);
     FUTEX_WAKES.fetch_add(k as u64, Ordering::Relaxed);
     k
+}
+
+/// `sched_yield` on a worker of a simulation. False: do the real call.
+pub(crate) fn spin_yield_emulated() -> bool {
+    let _i = InternalSection::new();
+    let cur = CURRENT.try_with(|c| c.borrow().as_ref().map(|(s, _, i)| (s.clone(), *i))).ok().flatten();
+    match cur {
+        Some((sim, me)) if me != DRIVER => {
+            if sim.lock().current != me {
+                return false;
+            }
+            flush_hooks_passed(&sim);
+            sim.yield_point(me, YieldKind::SpinYield);
+            true
+        }
+        _ => false,
+    }
 }
 
 /// `nanosleep` & co. on a thread that lives on simulated time: the time passes on the simulated
